@@ -3,9 +3,11 @@
 usage: pyxlate.py <out_py dir> <module name> <jobs.json> <results.json>
 job: {"proto": "P", "infmt": "b"|"j", "outfmt": "b"|"j", "in": path, "out": path,
       "chunk": optional int -> feed the reader through a raw stream that returns at most `chunk` bytes per read,
-      "mode": "hold" + "steps": read everything, then write; with "empty_batches" streams are written by several calls with empty lists between}
+      "mode": "hold" + "steps": read everything, then write; with "reuse" streams are written from a generator that re-yields one mutated object;
+      with "empty_batches" streams are written by several calls with empty lists between}
 result: {"rc": 0|3, "exc": str}
 """
+import enum
 import importlib
 import io
 import json
@@ -25,6 +27,28 @@ class ChunkedRaw(io.RawIOBase):
         b[:n] = self.data[self.pos:self.pos + n]
         self.pos += n
         return n
+
+
+def reusing(items):
+    """a lazy producer that keeps ONE mutable object per shape and re-yields it with the next item's content (a preallocated
+    acquisition buffer, one record instance updated in place): each item must be serialized before the next one is pulled"""
+    import copy
+    shared = None
+    for item in items:
+        same = shared is not None and type(shared) is type(item)
+        if same and type(item).__module__ == "numpy" and hasattr(item, "shape") and item.shape == shared.shape and item.dtype == shared.dtype and item.shape != ():
+            shared[...] = item
+        elif same and isinstance(item, list):
+            shared[:] = item
+        elif same and isinstance(item, dict):
+            shared.clear()
+            shared.update(item)
+        elif same and hasattr(item, "__dict__") and not isinstance(item, (type, enum.Enum)) and type(item).__module__ not in ("builtins", "numpy", "datetime"):
+            shared.__dict__.clear()
+            shared.__dict__.update(item.__dict__)
+        else:
+            shared = copy.deepcopy(item)
+        yield shared
 
 
 def main():
@@ -70,6 +94,8 @@ def main():
                             wr([])
                             i, n = i + n, n % 3 + 1
                         wr(iter(()))
+                    elif st["stream"] and job.get("reuse"):
+                        wr(reusing(v))
                     else:
                         wr(v)
                 w.close()
